@@ -12,7 +12,7 @@
    [row_terms]/[dacc] = one topology of get_excess_joint_distributions.
    Topology names are natural-number codes (abstract labels with decidable equality). *)
 From Coq Require Import List ZArith QArith Qabs Bool Arith.
-From GV Require Import Lib.Tree Lib.QSumM Model.Mixing Model.Algebra Proofs.MixingP Proofs.AlgebraP.
+From GV Require Import Lib.Tree Lib.QSumM Model.Mixing Model.Algebra Proofs.MixingP Proofs.AlgebraP Proofs.AlgebraNetP.
 Import ListNotations.
 Local Open Scope Q_scope.
 
@@ -135,7 +135,8 @@ Theorem C14_network_partial :
 Proof. exact network_identity. Qed.
 Print Assumptions C14_network_partial.
 
-(* the full dict-level statement (NOT proved in this form: what is missing is the plumbing that
+(* the full dict-level statement (originally NOT proved; now PROVED as C14_network_full_proved in the
+   Growth section at the end of this file.  What was missing: the plumbing that
    excess_from_ejk applied to the extractor's output with the extractor's excess keys returns, for
    every topology, a dict with exactly the keys xkeys_i whose values are the row sums above; the
    value part follows from C14_row_sums_value + C14_row_sums_full + C14_network_partial, the coverage
@@ -257,3 +258,69 @@ Example C14_nonvacuous_forward :
   | Err _ => False
   end.
 Proof. vm_compute. split; reflexivity. Qed.
+
+(* ================================================================== Growth *)
+(* C14_network, full dict-level form: for every clean annotated network both routes succeed and return,
+   for every topology, exactly the closed-form dict (keys = the excess keys xkeys_i, values
+   (a_i+1) #{v : jd v = a+e_i} / sum_v jd_v[i]) *)
+Theorem C14_network_full_proved : C14_network_full.
+Proof. exact network_full. Qed.
+Print Assumptions C14_network_full_proved.
+
+(* its two per-topology halves: row sums of the extractor's matrix over the extractor's excess keys ... *)
+Theorem C14_network_rows_dict :
+  forall (g : net) (T : nat), valid_net T g ->
+  forall (i t : nat), (i < T)%nat -> forall c : Z, clean_for g i t c -> col_sum g i <> 0%Z ->
+  forall cnt : counter,
+    dict_close 0 (dacc [] (row_terms (get_ejk g (count_edge_types cnt (edges g)) i t) (xkeys_i g i)))
+               (spec_network_i g i).
+Proof. exact net_row_close. Qed.
+Print Assumptions C14_network_rows_dict.
+
+(* ... and the excess distribution of the empirical joint degree distribution *)
+Theorem C14_network_forward_dict :
+  forall (g : net) (T i : nat), valid_net T g -> (i < T)%nat -> jds g <> [] -> col_sum g i <> 0%Z ->
+    dict_close 0 (spec_forward_i (jdd_from_network g) i) (spec_network_i g i).
+Proof. exact net_forward_close. Qed.
+Print Assumptions C14_network_forward_dict.
+
+(* the coverage facts behind it: under cleanness every excess key has a partner key with a matrix entry,
+   and the partner half of every matrix key is an excess key *)
+Theorem C14_network_coverage :
+  forall (g : net) (T : nat), valid_net T g ->
+  forall (i t : nat) (c : Z), clean_for g i t c -> forall cnt : counter,
+  let M := get_ejk g (count_edge_types cnt (edges g)) i t in
+  (forall a, In a (xkeys_i g i) -> exists b, In b (xkeys_i g i) /\ dmem M (a ++ b) = true) /\
+  (forall k a, In k (dkeys M) -> firstn T k = a -> In (skipn T k) (xkeys_i g i)).
+Proof. exact network_coverage. Qed.
+Print Assumptions C14_network_coverage.
+
+(* consequently the verified checker accepts the model's own output for every clean network *)
+Theorem C14_model_passes_network_checker :
+  forall (g : net) (names cs : list nat),
+    valid_net (length names) g -> NoDup names -> jds g <> [] ->
+    Forall (fun k => Forall (fun x => (0 <= x)%Z) k) (jds g) ->
+    length cs = length names ->
+    (forall i name c, nth_error names i = Some name -> nth_error cs i = Some c ->
+                      clean_for g i name (Z.of_nat c) /\ col_sum g i <> 0%Z) ->
+    exists rows fwd, net_rows g names = Ok rows /\ net_forward g = Ok fwd /\
+                     check_networkb 0 g names cs rows fwd = true.
+Proof. exact network_full_passes_checker. Qed.
+Print Assumptions C14_model_passes_network_checker.
+
+(* non-vacuity: the triangle + single-edge network meets every hypothesis of C14_network_full *)
+Example C14_network_full_nonvacuous :
+  let g := ex_net14 in let names := [0; 1]%nat in let cs := [1; 2]%nat in
+  valid_net (length names) g /\ NoDup names /\ jds g <> [] /\
+  Forall (fun k => Forall (fun x => (0 <= x)%Z) k) (jds g) /\ length cs = length names /\
+  (forall i name c, nth_error names i = Some name -> nth_error cs i = Some c ->
+                    clean_for g i name (Z.of_nat c) /\ col_sum g i <> 0%Z).
+Proof.
+  cbv zeta. split; [apply valid_netb_spec; reflexivity|].
+  split; [repeat constructor; cbn; intuition discriminate|].
+  split; [discriminate|]. split; [repeat constructor; cbn; discriminate|]. split; [reflexivity|].
+  intros [|[|i]] name c Hn Hc; cbn in Hn, Hc; try discriminate; inversion Hn; inversion Hc; subst.
+  - split; [apply (clean_forb_spec ex_net14 0 0 1); reflexivity|discriminate].
+  - split; [apply (clean_forb_spec ex_net14 1 1 2); reflexivity|discriminate].
+  - destruct i; discriminate.
+Qed.
